@@ -65,9 +65,12 @@ def flow_b(ctx, mine, n, salt, kinds=("edited",)):
         graphs.append({"k": k, "live": live})
         gi = len(graphs)
         acc = impl.accessor(live)
-        for j in range(4 if k < 5 else 10):          # index arithmetic beyond one byte starts at order 5: more cases there
+        pairs_from = 4 if (k <= 3 and "edited" in kinds) else 99      # orders 2 and 3: four more walks carrying exactly two spaced edits each
+        for j in range(8 if pairs_from == 4 else (4 if k < 5 else 10)):          # index arithmetic beyond one byte starts at order 5: more cases there
             start = cf.pick_start(rng, live)
             L = rng.choice([3 * k + 4, 40, 80, 120, 200])
+            if j >= pairs_from:
+                L = max(L, 8 * k + 16)
             if "long" in kinds and j == 0 and i % 8 in (0, 2, 3):        # orders 2, 4 and 5 (thorough: 2, 4, 5)
                 L = rng.choice([600, 900])              # many separated error sites: the candidate product is astronomically large (beyond 64 bits)
             w, v = [], start
@@ -76,7 +79,7 @@ def flow_b(ctx, mine, n, salt, kinds=("edited",)):
                 w.append(a)
                 v = (4 * v + a) % len(live)
             kind = kinds[(i + j) % len(kinds)]
-            if k >= 5 and j >= 4 and "edited" in kinds:
+            if (k >= 5 or j >= pairs_from) and j >= 4 and "edited" in kinds:
                 kind = "edited"
             if L >= 600:
                 kind = "long"
@@ -101,7 +104,7 @@ def flow_b(ctx, mine, n, salt, kinds=("edited",)):
                         sym = rng.choice([x for x in range(4) if x != w[p1]]) if op == "S" else (rng.randrange(4) if op == "I" else 0)
                         periodic = [{"op": op, "pos": p1, "sym": sym}, {"op": op, "pos": p2, "sym": sym}]
             if kind == "edited":
-                es = periodic or make_edits(rng, w, k, rng.choice([1, 1, 2, 3] if k <= 2 else ([1, 1, 2] if k < 5 else [1, 1, 1, 2])))        # keeps the candidate product (up to ~8k fragments per edit) in the low thousands
+                es = periodic or make_edits(rng, w, k, 2 if j >= pairs_from else rng.choice([1, 1, 2, 3] if k <= 2 else ([1, 1, 2] if k < 5 else [1, 1, 1, 2])))        # keeps the candidate product (up to ~8k fragments per edit) in the low thousands
                 s = apply_edits(w, es)
                 only_subs = all(e["op"] == "S" for e in es)
                 indel = True if not only_subs else rng.choice([True, False])
